@@ -247,3 +247,28 @@ Fixpoint tokz_loop (fuel fuel2 : nat) (b delims : list N) (off : Z) (acc : list 
 (* works on strdup(str) *)
 Definition qstrtokenizer (fuel : nat) (b delims : list N) : res (list (list N)) :=
   bind (cstr_of b) (fun s => tokz_loop fuel fuel (s ++ [0]) delims 0 []).
+
+(* ---------- qstr_comma_number (extra) ---------- *)
+(* str = malloc(14 + 1); the magnitude is taken in unsigned int arithmetic (0U - (unsigned)number for negatives) and printed
+   with "%u" into buf[11] (at most 10 digits); then
+   for (bufp = buf; *bufp; strp++, bufp++) { *strp = *bufp; if (strlen(bufp) % 3 == 1 && bufp[1]) *(++strp) = ','; } *)
+Fixpoint snprintf_u (fuel : nat) (n : N) : list N :=     (* "%u": decimal digits, most significant first *)
+  match fuel with
+  | O => []
+  | S f => if n <? 10 then [48 + n] else snprintf_u f (n / 10) ++ [48 + n mod 10]
+  end.
+Fixpoint comma_loop (bufp : list N) (cap : nat) (st : list N * nat) : res (list N * nat) :=
+  match bufp with
+  | [] => Ok st
+  | c :: r =>
+    bind (emit [c] cap st) (fun st1 =>
+      if ((length bufp mod 3 =? 1)%nat && negb (match r with [] => true | _ => false end))
+      then bind (emit [44] cap st1) (fun st2 => comma_loop r cap st2)
+      else comma_loop r cap st1)
+  end.
+Definition qstr_comma_number (number : Z) : res (list N) :=
+  let unumber := (if (number <? 0)%Z then (0 - number mod 4294967296) mod 4294967296 else number mod 4294967296)%Z in
+  let buf := snprintf_u 10 (Z.to_N unumber) in
+  bind (if (number <? 0)%Z then emit [45] 15 ([], O) else Ok ([], O)) (fun st0 =>
+  bind (comma_loop buf 15 st0) (fun st =>
+  bind (emit [0] 15 st) (fun _ => Ok (rev (fst st))))).
